@@ -66,6 +66,8 @@ def run(ck):
                  "every normal exit lies behind the completed wait and a test of the simulator's "
                  "error state", 'M1', 2)
 
+    from rules.shared import undef_refused_everywhere
+    undef_refused_everywhere(ck, R6)
     g = ck.cfg(isb.fid, 'M1')
     bp = isb.node.args.args[0].arg          # blk
     steps_w = nodes_writing_attr(g, 'init_steps_completed', base=bp)
